@@ -29,7 +29,7 @@ REQUIRED = {
             "timing-checked": 2000, "overrun-catchup": 30, "mode-string-checked": 2000, "teleop-in-auto-iteration": 100,
             "inherited-robot-class": 50, "fault-in-iteration-body-swallowed": 20, "statemachine-component": 100,
             "robot-without-some-mode-hooks": 100, "falsy-mode-object-active": 10, "mode-chosen-by-auto-selector-string": 50,
-            "falsy-component": 100},
+            "falsy-component": 100, "auto-iteration-mode-rule-checked": 2000},
     "C06": {"transition:teleop->auto": 20, "transition:auto->teleop": 20, "transition:teleop->disabled": 30,
             "transition:disabled->teleop": 30, "transition:auto->test": 10, "setup-checked": 300, "lifecycle-fault-swallowed": 30, "statemachine-component": 100, "end:teleop": 10, "end:auto": 10,
             "end:disabled": 10, "end:test": 10, "robot-without-some-mode-hooks": 100,
@@ -362,6 +362,33 @@ def expected_chunks(spec):
             meta.append({"mode": m, "seg": si, "k": k, "prev": prev if k == 0 else m})
         prev = m
     return chunks, meta, leave(prev)
+
+
+def check_auto_mode_iterations(spec, run, V, acc):
+    """C05, stated directly on each observed autonomous iteration of a fault-free run (independent of the alignment of
+    the whole callback sequence): the selected mode's on_iteration runs exactly once, before any component's execute,
+    and no other mode's on_iteration runs."""
+    if any(e[0] == "raise" for e in run.log):
+        return
+    _, meta, _ = expected_chunks(spec)
+    obs, _tail = split_chunks(run.log)
+    am = active_mode(spec)
+    want = [f"M.{am}.on_iteration"] if am else []
+    for ci in range(min(len(obs), len(meta))):
+        if meta[ci]["mode"] != "auto":
+            continue
+        sites = [e[1] for e in obs[ci] if e[0] == "cb"]
+        its = [x for x in sites if x.startswith("M.") and x.endswith(".on_iteration")]
+        acc.checks += 1
+        V.ev("auto-iteration-mode-rule-checked")
+        if its != want:
+            V.add("C05", "auto-mode-iteration", f"iteration #{ci} (auto): on_iteration calls {its}, expected {want} "
+                  f"(selected mode: {am!r}, 'Auto Selector' = {spec.get('auto_selector')!r})")
+            return
+        ex = [i for i, x in enumerate(sites) if x.endswith(".execute")]
+        if its and ex and sites.index(its[0]) > ex[0]:
+            V.add("C05", "auto-mode-iteration", f"iteration #{ci} (auto): {its[0]} ran after {sites[ex[0]]}")
+            return
 
 
 def site_kind(site):
@@ -901,6 +928,8 @@ def run_case(spec, acc):
     V = Verdicts()
     fired, n_ok = check_sequence(spec, run, V, acc)
     check_setup(spec, run, V, acc)
+    if spec["pid"] == "C05":
+        check_auto_mode_iterations(spec, run, V, acc)
     check_mode_and_timing(spec, run, V, acc)
     check_faults(spec, run, V, acc, fired, n_ok)
     if spec["pid"] == "C07" and any(e[0] == "raise" for e in run.log):
